@@ -33,6 +33,11 @@ def gen_optable(rng, idx):
     n_lev = min(n_lev, n_ops) if rng.random() < 0.8 else n_lev
     syms = rng.sample(OPS_POOL, n_ops)
     prios = sorted(rng.sample(range(0, 25), n_lev))       # crosses DEFAULT_PRIORITY = 10
+    if idx % 4 == 3:
+        # priorities are arbitrary integers: values beyond CPython's small-int cache (-5..256), where equal
+        # numbers are distinct objects (seed C06-6: `is` instead of `==`), and beyond 2^63
+        prios = sorted(rng.sample(list(range(250, 265)) + [1000, 4096, 65535, 65536, 10 ** 6, 2 ** 31, 2 ** 63 - 1,
+                                                           2 ** 63, 2 ** 64 + 1, 10 ** 20], n_lev))
     lev_assoc = [rng.choice([1, 2]) for _ in range(n_lev)]  # ASSOC_LEFT / ASSOC_RIGHT
     # every level used at least once when possible
     levels = list(range(min(n_lev, n_ops))) + [rng.randrange(n_lev) for _ in range(max(0, n_ops - n_lev))]
